@@ -224,5 +224,7 @@ class PatternEventStream(PatternValueStream):
         if self._stream:
             try:
                 self._stream.throw(stm.StopStream)
-            except StopIteration:
+            except (StopIteration, RuntimeError):
+                # RuntimeError: the generator was not inside a block that
+                # catches StopStream (PEP 479 turns it into RuntimeError).
                 pass
